@@ -52,19 +52,19 @@ class MeanAggregator(Aggregator):
         if not all(isinstance(pred, (np.ndarray, np.ma.MaskedArray)) for pred in y):
             raise TypeError("All elements of `y` must be numpy.ndarray or numpy.ma.MaskedArray.")
 
-        self._np = np
+        xp = np
         if all(isinstance(pred, np.ma.MaskedArray) for pred in y):
-            self._np = np.ma
+            xp = np.ma
 
         # Stack predictions for aggregation
-        stacked_y = self._np.stack(y, axis=0)
-        avg = self._np.average(stacked_y, axis=0, weights=weights)
+        stacked_y = xp.stack(y, axis=0)
+        avg = xp.average(stacked_y, axis=0, weights=weights)
 
         if not self.with_scale:
             return avg
 
-        scale = self._np.sqrt(
-            self._np.average((stacked_y - avg) ** 2, axis=0, weights=weights)
+        scale = xp.sqrt(
+            xp.average((stacked_y - avg) ** 2, axis=0, weights=weights)
         )
 
         return {"loc": avg, "scale": scale}
